@@ -194,6 +194,8 @@ pub enum Op {
     RSync(Req),
     RReopen,
     RGet(u64),
+    /// replica: clear a range of locally held blocks
+    RClear(u64, u64),
     /// replica: apply an altered (must-refuse) version of the honest proof for Req; alteration id
     RBad(Req, u8),
 }
@@ -214,6 +216,7 @@ impl Op {
             Op::RSync(r) => format!("rsync{}", req_brief(r)),
             Op::RReopen => "r.reopen".into(),
             Op::RGet(i) => format!("r.get({i})"),
+            Op::RClear(s, e) => format!("r.clear({s},{e})"),
             Op::RBad(r, a) => format!("rbad#{a}{}", req_brief(r)),
         }
     }
@@ -228,11 +231,12 @@ impl Op {
             Op::RSync(_) => "rsync",
             Op::RReopen => "rreopen",
             Op::RGet(_) => "rget",
+            Op::RClear(..) => "rclear",
             Op::RBad(..) => "rbad",
         }
     }
     pub fn is_replica_op(&self) -> bool {
-        matches!(self, Op::RSync(_) | Op::RReopen | Op::RGet(_) | Op::RBad(..))
+        matches!(self, Op::RSync(_) | Op::RReopen | Op::RGet(_) | Op::RClear(..) | Op::RBad(..))
     }
 }
 
